@@ -95,6 +95,22 @@ def view_of(case, H):
         import networkx as nx
         assert not has_catalyst(case)
         return nx.Graph(hypergraph_to_bipartite(H, integer_ids=bool(case.get("perm_seed", 0) % 2)))
+    if v == "bip_shuf":
+        # a directly built bipartite graph whose SPECIES nodes were inserted in an order unrelated to their labels (reaction
+        # nodes interleaved, in edge-id order: the column order among equal rule labels is the node order); integer or string ids
+        import random
+        import networkx as nx
+        G = hypergraph_to_bipartite(H, integer_ids=bool(case.get("perm_seed", 0) % 2))
+        sp = [u for u, d in G.nodes(data=True) if d.get("kind") == "species"]
+        rn = [u for u, d in G.nodes(data=True) if d.get("kind") == "reaction"]
+        random.Random(case.get("perm_seed", 0)).shuffle(sp)
+        k = len(sp) // 2
+        G2 = nx.DiGraph()
+        for u in sp[:k] + rn + sp[k:]:
+            G2.add_node(u, **G.nodes[u])
+        for u, w, d in G.edges(data=True):
+            G2.add_edge(u, w, **d)
+        return nx.Graph(G2) if (case.get("perm_seed", 0) % 3 == 0 and not has_catalyst(case)) else G2
     if v in ("bip_perm", "bip_sperm"):
         # caller-supplied graph whose node ids are unrelated to the labels: the integer ids 1..N+M of the export
         # permuted (species and reaction ids interleaved, multi-digit), or strings "n<k>" (string order != numeric order)
@@ -352,7 +368,7 @@ def node_ids(case):
         return 2 * intern.setdefault(u, len(intern)) + 1
     sp = [(d["label"], num(u)) for u, d in Gv.nodes(data=True) if d.get("kind") == "species"]
     rx = [num(u) for u, d in Gv.nodes(data=True) if d.get("kind") == "reaction"]
-    assert [l for l, _ in sp] == sorted(l for l, _ in sp)
+    sp.sort(key=lambda t: t[0])          # aligned with species_set (label order), whatever the node insertion order
     return [k for _, k in sp], rx
 
 
@@ -713,7 +729,7 @@ def distribution(cases, obss):
             hist["states"] += len(c["states"])
             for ed in c["edits"]:
                 for op in ed:
-                    key = op[0] + ("/keep" if op[0] == "rmsp" and not op[2] else "")
+                    key = ("graph:" if c.get("gview") else "") + op[0] + ("/keep" if op[0] == "rmsp" and len(op) > 2 and not op[2] else "")
                     hist["edits"][key] = hist["edits"].get(key, 0) + 1
             o = o[-1] if isinstance(o, list) and o and isinstance(o[-1], list) else o
         views[c.get("view", "hyper")] = views.get(c.get("view", "hyper"), 0) + 1
@@ -742,7 +758,7 @@ BIG_NAMES = [
     lambda n: list("ABCDEFGHIJKLMNOP")[:n],
     lambda n: ["m%d_a" % i if i % 3 else "M%d" % i for i in range(n, 0, -1)],
 ]
-BIG_VIEWS = ["hyper", "bip_int", "bip_str", "bip_perm", "bip_sperm"]
+BIG_VIEWS = ["hyper", "bip_int", "bip_str", "bip_perm", "bip_sperm", "bip_shuf"]
 
 
 def big_net(rng, k, kind="big"):
@@ -975,12 +991,15 @@ def gen_cases(tier, rng):
         c = big_net(rng, k)
         if k % 7 == 3 and not has_catalyst(c):
             c["view"] = "bip_und"
+        elif k % 7 == 5:
+            c["view"] = "bip_shuf"
         cases.append(c)
     for t in G.textbook():                                   # undirected inputs of the textbook networks without catalysts
         t.pop("delta", None)
         t.pop("wr", None)
         if not has_catalyst(t):
             cases.append(dict(t, view="bip_und", name=t["name"] + "/undirected"))
+        cases.append(dict(t, view="bip_shuf", perm_seed=len(cases), name=t["name"] + "/shuffled-nodes"))
     nh = 0
     while nh < (60 if tier == "quick" else 600):
         c = edit_history(rng)
@@ -1014,6 +1033,9 @@ def gen_cases(tier, rng):
             c["perm_seed"] = rng.randrange(10 ** 6)
         elif not has_catalyst(c) and rng.random() < 0.25:    # undirected input
             c["view"] = "bip_und"
+            c["perm_seed"] = rng.randrange(10 ** 6)
+        elif c["view"] != "hyper" and rng.random() < 0.5:    # node insertion order unrelated to the labels
+            c["view"] = "bip_shuf"
             c["perm_seed"] = rng.randrange(10 ** 6)
         cases.append(c)
     for _ in range(ncons):
